@@ -76,6 +76,8 @@ def report_case(draw):
         "workers": draw(st.sampled_from([1, 2])),
         # the cassette records the command line
         "checks": draw(st.sampled_from(["not_a_server_error", "not_a_server_error,content_type_conformance", "not_a_server_error,content_type_conformance"])),
+        # credentials in the base URL are redacted in the recorded URLs when sanitisation is on
+        "userinfo": draw(st.sampled_from([None, None, "usr:pw", "tok3n"])),
         "cli_header": draw(st.sampled_from([None, None, "X-Cli: plain", "X-Cli: it's", "X-Cli: \"q\" #x", "X-Cli: a: 'b'"])),
     }
 
@@ -151,7 +153,8 @@ def check_reports(ctx: Ctx, inp) -> None:
         with open(schema_path, "w") as fd:
             json.dump(build_doc(inp), fd)
         report_dir = os.path.join(workdir, "reports")
-        args = ["run", schema_path, "--url", server.url, "--report", "junit,vcr,har", "--report-dir", report_dir, "--phases", ",".join(inp["phases"]), "--max-examples", "4", "--seed", str(inp["seed"]), "--workers", str(inp["workers"]), "--no-color", "--checks", inp.get("checks", "not_a_server_error"), "--continue-on-failure", "--output-sanitize", "true" if inp["sanitize"] else "false"]
+        base_url = server.url.replace("http://", f"http://{inp['userinfo']}@") if inp.get("userinfo") and inp["sanitize"] else server.url
+        args = ["run", schema_path, "--url", base_url, "--report", "junit,vcr,har", "--report-dir", report_dir, "--phases", ",".join(inp["phases"]), "--max-examples", "4", "--seed", str(inp["seed"]), "--workers", str(inp["workers"]), "--no-color", "--checks", inp.get("checks", "not_a_server_error"), "--continue-on-failure", "--output-sanitize", "true" if inp["sanitize"] else "false"]
         if inp["preserve_bytes"]:
             args.append("--report-preserve-bytes")
         if inp.get("cli_header"):
